@@ -10,6 +10,7 @@ import (
 	"github.com/Eyevinn/mp4ff/avc"
 	"pgregory.net/rapid"
 
+	"verif/internal/esgen"
 	"verif/internal/harness"
 	"verif/internal/nalgen"
 )
@@ -32,228 +33,6 @@ func (c *avcSliceCase) resolve() (*nalgen.AVCSPSTree, *nalgen.AVCPPSTree) {
 		}
 	}
 	return nil, nil
-}
-
-func genAVCRefPicListMod(t *rapid.T, maxOps int, maxPicNum uint64, label string) []nalgen.RefPicListMod {
-	n := rapid.IntRange(1, maxOps).Draw(t, label+"-n")
-	if n > 4 && !avcChance(t, 1, 4, label+"-many") {
-		n = 1 + n%4
-	}
-	var out []nalgen.RefPicListMod
-	for i := 0; i < n; i++ {
-		idc := uint32(rapid.IntRange(0, 2).Draw(t, label+"-modification_of_pic_nums_idc"))
-		var v uint32
-		if idc == 2 {
-			v = uint32(avcDrawUint(t, 0, 31, label+"-long_term_pic_num"))
-		} else {
-			v = uint32(avcDrawUint(t, 0, maxPicNum-1, label+"-abs_diff_pic_num_minus1"))
-		}
-		out = append(out, nalgen.RefPicListMod{IDC: idc, Value: v})
-	}
-	return out
-}
-
-func genAVCPredWeights(t *rapid.T, n uint32, chroma bool, label string) []nalgen.PredWeight {
-	out := make([]nalgen.PredWeight, n+1)
-	for i := range out {
-		e := &out[i]
-		e.LumaFlag = rapid.Bool().Draw(t, label+"-luma_weight_flag")
-		if e.LumaFlag {
-			e.LumaWeight = int32(avcDrawInt(t, -128, 127, label+"-luma_weight"))
-			e.LumaOffset = int32(avcDrawInt(t, -128, 127, label+"-luma_offset"))
-		}
-		if chroma {
-			e.ChromaFlag = rapid.Bool().Draw(t, label+"-chroma_weight_flag")
-			if e.ChromaFlag {
-				for j := 0; j < 2; j++ {
-					e.ChromaWeight[j] = int32(avcDrawInt(t, -128, 127, label+"-chroma_weight"))
-					e.ChromaOffset[j] = int32(avcDrawInt(t, -128, 127, label+"-chroma_offset"))
-				}
-			}
-		}
-	}
-	return out
-}
-
-// genAVCSlice draws a slice header that refers to pps (-> sps).
-func genAVCSlice(t *rapid.T, sps *nalgen.AVCSPSTree, pps *nalgen.AVCPPSTree) nalgen.AVCSliceTree {
-	var tr nalgen.AVCSliceTree
-	h := &tr.H
-	s := &sps.S
-	p := &pps.P
-	idr := avcChance(t, 1, 3, "idr")
-	tr.NalUnitType = 1
-	if idr {
-		tr.NalUnitType = 5
-		tr.NalRefIdc = uint8(rapid.IntRange(1, 3).Draw(t, "nal_ref_idc"))
-		h.SliceType = avc.SliceType(rapid.SampledFrom([]int{2, 7, 4, 9}).Draw(t, "slice_type"))
-	} else {
-		tr.NalRefIdc = uint8(rapid.IntRange(0, 3).Draw(t, "nal_ref_idc"))
-		h.SliceType = avc.SliceType(rapid.IntRange(0, 9).Draw(t, "slice_type"))
-	}
-	st := uint32(h.SliceType) % 5
-	isP, isB, isI, isSP, isSI := st == 0, st == 1, st == 2, st == 3, st == 4
-	h.PicParamID = p.PicParameterSetID
-	chromaArrayType := avcChromaFormatIDC(s)
-	if s.SeparateColourPlaneFlag {
-		chromaArrayType = 0
-		h.ColorPlaneID = uint32(rapid.IntRange(0, 2).Draw(t, "colour_plane_id"))
-	}
-	maxFrameNum := uint64(1) << (s.Log2MaxFrameNumMinus4 + 4)
-	if !idr {
-		h.FrameNum = uint32(avcDrawUint(t, 0, maxFrameNum-1, "frame_num"))
-	}
-	if !s.FrameMbsOnlyFlag {
-		h.FieldPicFlag = rapid.Bool().Draw(t, "field_pic_flag")
-		if h.FieldPicFlag {
-			h.BottomFieldFlag = rapid.Bool().Draw(t, "bottom_field_flag")
-		}
-	}
-	// first_mb_in_slice: 0..PicSizeInMbs-1 (PicSizeInMbs/2-1 in MBAFF frames)
-	frameHeightInMbs := uint64(sps.PicHeightInMapUnitsMinus1 + 1)
-	if !s.FrameMbsOnlyFlag {
-		frameHeightInMbs *= 2
-	}
-	picHeightInMbs := frameHeightInMbs
-	if h.FieldPicFlag {
-		picHeightInMbs /= 2
-	}
-	picSizeInMbs := uint64(sps.PicWidthInMbsMinus1+1) * picHeightInMbs
-	if s.MbAdaptiveFrameFieldFlag && !h.FieldPicFlag {
-		picSizeInMbs /= 2
-	}
-	h.FirstMBInSlice = uint32(avcDrawUint(t, 0, picSizeInMbs-1, "first_mb_in_slice"))
-	if idr {
-		h.IDRPicID = uint32(avcDrawUint(t, 0, 65535, "idr_pic_id"))
-	}
-	const m31 = 1<<31 - 1
-	if s.PicOrderCntType == 0 {
-		h.PicOrderCntLsb = uint32(avcDrawUint(t, 0, uint64(1)<<(s.Log2MaxPicOrderCntLsbMinus4+4)-1, "pic_order_cnt_lsb"))
-		if p.BottomFieldPicOrderInFramePresentFlag && !h.FieldPicFlag {
-			h.DeltaPicOrderCntBottom = int32(avcDrawInt(t, -m31, m31, "delta_pic_order_cnt_bottom"))
-		}
-	}
-	if s.PicOrderCntType == 1 && !s.DeltaPicOrderAlwaysZeroFlag {
-		h.DeltaPicOrderCnt[0] = int32(avcDrawInt(t, -m31, m31, "delta_pic_order_cnt[0]"))
-		if p.BottomFieldPicOrderInFramePresentFlag && !h.FieldPicFlag {
-			h.DeltaPicOrderCnt[1] = int32(avcDrawInt(t, -m31, m31, "delta_pic_order_cnt[1]"))
-		}
-	}
-	if p.RedundantPicCntPresentFlag {
-		h.RedundantPicCnt = uint32(avcDrawUint(t, 0, 127, "redundant_pic_cnt"))
-	}
-	if isB {
-		h.DirectSpatialMvPredFlag = rapid.Bool().Draw(t, "direct_spatial_mv_pred_flag")
-	}
-	maxIdx := uint64(15)
-	if h.FieldPicFlag {
-		maxIdx = 31
-	}
-	if isP || isSP || isB {
-		needOverride := uint64(p.NumRefIdxI0DefaultActiveMinus1) > maxIdx || (isB && uint64(p.NumRefIdxI1DefaultActiveMinus1) > maxIdx)
-		h.NumRefIdxActiveOverrideFlag = needOverride || rapid.Bool().Draw(t, "num_ref_idx_active_override_flag")
-		if h.NumRefIdxActiveOverrideFlag {
-			h.NumRefIdxL0ActiveMinus1 = uint32(avcDrawUint(t, 0, maxIdx, "num_ref_idx_l0_active_minus1"))
-			if isB {
-				h.NumRefIdxL1ActiveMinus1 = uint32(avcDrawUint(t, 0, maxIdx, "num_ref_idx_l1_active_minus1"))
-			}
-		} else {
-			// inferred from the PPS (7.4.3)
-			h.NumRefIdxL0ActiveMinus1 = uint32(p.NumRefIdxI0DefaultActiveMinus1)
-			if isB {
-				h.NumRefIdxL1ActiveMinus1 = uint32(p.NumRefIdxI1DefaultActiveMinus1)
-			}
-		}
-	}
-	maxPicNum := maxFrameNum
-	if h.FieldPicFlag {
-		maxPicNum *= 2
-	}
-	if !isI && !isSI {
-		h.RefPicListModificationL0Flag = avcChance(t, 1, 3, "ref_pic_list_modification_flag_l0")
-		if h.RefPicListModificationL0Flag {
-			tr.ModL0 = genAVCRefPicListMod(t, int(h.NumRefIdxL0ActiveMinus1)+1, maxPicNum, "l0")
-		}
-	}
-	if isB {
-		h.RefPicListModificationL1Flag = avcChance(t, 1, 3, "ref_pic_list_modification_flag_l1")
-		if h.RefPicListModificationL1Flag {
-			tr.ModL1 = genAVCRefPicListMod(t, int(h.NumRefIdxL1ActiveMinus1)+1, maxPicNum, "l1")
-		}
-	}
-	if (p.WeightedPredFlag && (isP || isSP)) || (p.WeightedBipredIDC == 1 && isB) {
-		h.LumaLog2WeightDenom = uint32(rapid.IntRange(0, 7).Draw(t, "luma_log2_weight_denom"))
-		if chromaArrayType != 0 {
-			h.ChromaLog2WeightDenom = uint32(rapid.IntRange(0, 7).Draw(t, "chroma_log2_weight_denom"))
-		}
-		tr.PredWeightL0 = genAVCPredWeights(t, h.NumRefIdxL0ActiveMinus1, chromaArrayType != 0, "pwt-l0")
-		if isB {
-			tr.PredWeightL1 = genAVCPredWeights(t, h.NumRefIdxL1ActiveMinus1, chromaArrayType != 0, "pwt-l1")
-		}
-	}
-	if tr.NalRefIdc != 0 {
-		if idr {
-			h.NoOutputOfPriorPicsFlag = rapid.Bool().Draw(t, "no_output_of_prior_pics_flag")
-			h.LongTermReferenceFlag = rapid.Bool().Draw(t, "long_term_reference_flag")
-		} else {
-			h.AdaptiveRefPicMarkingModeFlag = avcChance(t, 1, 3, "adaptive_ref_pic_marking_mode_flag")
-			if h.AdaptiveRefPicMarkingModeFlag {
-				n := rapid.IntRange(1, 6).Draw(t, "mmco-n")
-				seen4, seen5 := false, false
-				for i := 0; i < n; i++ {
-					op := uint32(rapid.IntRange(1, 6).Draw(t, "memory_management_control_operation"))
-					if (op == 4 && seen4) || (op == 5 && seen5) {
-						op = 1
-					}
-					seen4 = seen4 || op == 4
-					seen5 = seen5 || op == 5
-					mm := nalgen.MMCO{Op: op}
-					if op == 1 || op == 3 {
-						mm.DifferenceOfPicNumsMinus1 = uint32(avcDrawUint(t, 0, maxPicNum-1, "difference_of_pic_nums_minus1"))
-					}
-					if op == 2 {
-						mm.LongTermPicNum = uint32(avcDrawUint(t, 0, 31, "mmco-long_term_pic_num"))
-					}
-					if op == 3 || op == 6 {
-						mm.LongTermFrameIdx = uint32(avcDrawUint(t, 0, 15, "long_term_frame_idx"))
-					}
-					if op == 4 {
-						mm.MaxLongTermFrameIdxPlus1 = uint32(avcDrawUint(t, 0, 16, "max_long_term_frame_idx_plus1"))
-					}
-					tr.MMCOs = append(tr.MMCOs, mm)
-				}
-			}
-		}
-	}
-	if p.EntropyCodingModeFlag && !isI && !isSI {
-		h.CabacInitIDC = uint32(rapid.IntRange(0, 2).Draw(t, "cabac_init_idc"))
-	}
-	// SliceQPY = 26 + pic_init_qp_minus26 + slice_qp_delta in -QpBdOffsetY..51
-	qpBd := 6 * int64(s.BitDepthLumaMinus8)
-	base := 26 + int64(p.PicInitQpMinus26)
-	h.SliceQPDelta = int32(avcDrawInt(t, -qpBd-base, 51-base, "slice_qp_delta"))
-	if isSP || isSI {
-		if isSP {
-			h.SPForSwitchFlag = rapid.Bool().Draw(t, "sp_for_switch_flag")
-		}
-		qsBase := 26 + int64(p.PicInitQsMinus26)
-		h.SliceQSDelta = int32(avcDrawInt(t, -qsBase, 51-qsBase, "slice_qs_delta"))
-	}
-	if p.DeblockingFilterControlPresentFlag {
-		h.DisableDeblockingFilterIDC = uint32(rapid.IntRange(0, 2).Draw(t, "disable_deblocking_filter_idc"))
-		if h.DisableDeblockingFilterIDC != 1 {
-			h.SliceAlphaC0OffsetDiv2 = int32(rapid.IntRange(-6, 6).Draw(t, "slice_alpha_c0_offset_div2"))
-			h.SliceBetaOffsetDiv2 = int32(rapid.IntRange(-6, 6).Draw(t, "slice_beta_offset_div2"))
-		}
-	}
-	if p.NumSliceGroupsMinus1 > 0 && p.SliceGroupMapType >= 3 && p.SliceGroupMapType <= 5 {
-		ps := nalgen.AVCPicSizeInMapUnits(sps)
-		rate := uint64(p.SliceGroupChangeRateMinus1) + 1
-		h.SliceGroupChangeCycle = uint32(avcDrawUint(t, 0, (ps+rate-1)/rate, "slice_group_change_cycle"))
-	}
-	// opaque slice data; zero-heavy so that emulation prevention happens right behind (and inside) the header
-	tr.SliceData = rapid.SliceOfN(rapid.SampledFrom([]byte{0, 0, 0, 1, 2, 3, 4, 0x80, 0xff}), 0, 6).Draw(t, "slice_data")
-	return tr
 }
 
 func avcSliceClasses(c *avcSliceCase, info nalgen.AVCSliceBits) []string {
@@ -408,39 +187,7 @@ func checkAVCSlice(c avcSliceCase) *harness.Fail {
 
 func genAVCSliceCase(rt *rapid.T) avcSliceCase {
 	var c avcSliceCase
-	nSPS := rapid.IntRange(1, 3).Draw(rt, "nSPS")
-	nPPS := rapid.IntRange(1, 4).Draw(rt, "nPPS")
-	spsIDs := avcDistinct(rt, nSPS, 31, "seq_parameter_set_id")
-	ppsIDs := avcDistinct(rt, nPPS, 255, "pic_parameter_set_id")
-	refs := make([]int, nPPS)
-	for i := range refs {
-		refs[i] = rapid.IntRange(0, nSPS-1).Draw(rt, "pps-refers-to")
-	}
-	use := rapid.IntRange(0, nPPS-1).Draw(rt, "slice-uses-pps")
-	// known-defect avoidance on the ids of the pair the slice uses
-	if avcAvoid("avc-slice-seqparamid-unset", spsIDs[refs[use]] != 0) {
-		for i := range spsIDs {
-			if spsIDs[i] == 0 {
-				spsIDs[i] = spsIDs[refs[use]]
-			}
-		}
-		spsIDs[refs[use]] = 0
-	}
-	if avcAvoid("avc-slice-spsid-via-ppsid", ppsIDs[use] != spsIDs[refs[use]]) {
-		for i := range ppsIDs {
-			if ppsIDs[i] == spsIDs[refs[use]] {
-				ppsIDs[i] = ppsIDs[use]
-			}
-		}
-		ppsIDs[use] = spsIDs[refs[use]]
-	}
-	for i := 0; i < nSPS; i++ {
-		c.SPS = append(c.SPS, genAVCSPS(rt, avcSPSOpts{ID: spsIDs[i], Light: true}))
-	}
-	for i := 0; i < nPPS; i++ {
-		c.PPS = append(c.PPS, genAVCPPS(rt, avcPPSOpts{ID: ppsIDs[i], NoChangeCycleTypes: i == use}, &c.SPS[refs[i]]))
-	}
-	c.Slice = genAVCSlice(rt, &c.SPS[refs[use]], &c.PPS[use])
+	c.SPS, c.PPS, c.Slice, _, _ = esgen.GenAVCSliceSet(rt)
 	return c
 }
 
@@ -451,7 +198,7 @@ func TestAVCSlice(t *testing.T) {
 		_, info := nalgen.SerializeAVCSlice(&c.Slice, sps, pps)
 		cl := avcSliceClasses(&c, info)
 		raw, _ := json.Marshal(c)
-		harness.Rec.Case(avcNontrivial(cl, "avc-slice-type-", "avc-slice-naltype-", "avc-slice-poc0"), raw, cl...)
+		harness.Rec.Case(esgen.AVCNontrivial(cl, "avc-slice-type-", "avc-slice-naltype-", "avc-slice-poc0"), raw, cl...)
 		if harness.Rec.WantSample() {
 			harness.Rec.Sample(map[string]interface{}{"kind": "avcslice", "case": c})
 		}
